@@ -4,7 +4,11 @@ from . import wiregen as W
 
 ID = "C06"
 SPEC_IS_ORACLE = lambda c: c.cmd == "RUN"  # handle-level cases: the model is the closed form of the property
+AUDIT_IMPORTS = ["PortusModel.Props.C06Acts"]
 THEOREMS = [
+    "Portus.C06.updatefield_staged", "Portus.C06.updatefield_acts", "Portus.C06.changeprog_staged", "Portus.C06.changeprog_acts",
+    "Portus.C06.changeprog_unknown_uid", "Portus.C06.pending_applied", "Portus.C06.pending_applied_switch", "Portus.C06.update_takes_effect",
+    "Portus.C06.update_control_takes_effect", "Portus.C06.changeprog_takes_effect", "Portus.C06.updatefield_over_127_refused", "Portus.C06.stageUpdates_spec",
     "Portus.C06.changeprog_read_by_libccp", "Portus.C06.updatefield_read_by_libccp",
     "Portus.C06.install_read_by_libccp", "Portus.C06.header_len_honest_cp", "Portus.C06.header_len_honest_in",
     "Portus.C06.unrepresentable_fails_cp", "Portus.C06.unrepresentable_fails_uf", "Portus.C06.unrepresentable_fails_in",
@@ -26,9 +30,15 @@ LEVEL_TEXT = ("Machine-checked proof (Lean 4) that libccp's reader (packed littl
               "model of portus' change-program, update-fields and install encoders returns exactly the program uid, flow id and "
               "the (class, index, value) / event / instruction records the message was built from, in order, for every message "
               "within libccp's limits; that the 16-bit header length equals the true byte length and count fields the record "
-              "counts; and that lengths the header cannot hold are refused. Encoders tied to the code by differential runs.")
+              "counts; and that lengths the header cannot hold are refused. 'libccp accepts it and behaves accordingly' is proved over the "
+              "libccp model too (Props/C06Acts): reading portus' update-fields / change-program bytes stages exactly the message's "
+              "(register, value) pairs in order, later entries winning (updatefield_staged, changeprog_staged; unknown uid refused), the "
+              "next invocation applies them before the program runs (pending_applied, update_takes_effect), for up to 127 updates - "
+              "128..255 pairs, which portus can encode, are refused by libccp as a whole (updatefield_over_127_refused: libccp reads the "
+              "count from a signed byte). Encoders tied to the code by differential runs; the libccp model by the cross-check that "
+              "feeds portus-built messages to the real libccp.")
 LEVEL_NOTE = ("Trusts: Lean kernel; correspondence (register table exhaustive, lists of all lengths 0..300); the libccp reader model. "
-              "'libccp behaves accordingly' (staging/applying the updates) is covered by the VM model correspondence, not by a theorem yet.")
+              "'libccp behaves accordingly' is proved over the libccp MODEL; the model's fidelity to the C code is validated against the real libccp, not proved.")
 TECHNIQUE = "Lean 4 theorems (independent libccp reader ∘ encoder = identity on records) + differential correspondence + Lean oracle"
 
 CLASSES = ["C%dn", "C%dv", "R%dn", "R%dv", "I%d", "L%d", "P%d", "T%d"]
